@@ -1,0 +1,53 @@
+//go:build verif
+
+package rtree
+
+import (
+	"strconv"
+	"strings"
+)
+
+// VerifDump exports the shape of the tree for external verification of its
+// structural invariants (build tag verif only). Format, in prefix notation:
+//
+//	tree  := "T" count ("nil" | node)
+//	node  := "N" numEntries entry*
+//	entry := "L" minx miny maxx maxy recordID | "B" minx miny maxx maxy node
+func (t *RTree) VerifDump() string {
+	var sb strings.Builder
+	num := func(f float64) {
+		sb.WriteByte(' ')
+		sb.WriteString(strconv.FormatFloat(f, 'g', -1, 64))
+	}
+	var rec func(n *node)
+	rec = func(n *node) {
+		sb.WriteString(" N ")
+		sb.WriteString(strconv.Itoa(n.numEntries))
+		for i := 0; i < n.numEntries; i++ {
+			e := n.entries[i]
+			if e.child == nil {
+				sb.WriteString(" L")
+			} else {
+				sb.WriteString(" B")
+			}
+			num(e.box.MinX)
+			num(e.box.MinY)
+			num(e.box.MaxX)
+			num(e.box.MaxY)
+			if e.child == nil {
+				sb.WriteByte(' ')
+				sb.WriteString(strconv.Itoa(e.recordID))
+			} else {
+				rec(e.child)
+			}
+		}
+	}
+	sb.WriteString("T ")
+	sb.WriteString(strconv.Itoa(t.count))
+	if t.root == nil {
+		sb.WriteString(" nil")
+	} else {
+		rec(t.root)
+	}
+	return sb.String()
+}
